@@ -268,6 +268,7 @@ def run_side(binary, cases, timeout=None, shards=NPROC):
     def work(ix):
         todo = list(ix)
         hangs = 0
+        dead_starts = 0
         while todo:
             # the time limit of a shard grows with its size; it only exists to get out of a hang
             outs, st = _run_side(binary, [cases[i] for i in todo], (timeout + 0.05 * len(todo)) if hangs == 0 else min(timeout, 30))
@@ -292,6 +293,14 @@ def run_side(binary, cases, timeout=None, shards=NPROC):
                 return
             results[todo[n]] = '(abort %s)' % st
             todo = todo[n + 1:]
+            # a shard that dies on the very first case it is given, three times in a row (every case exhausts memory,
+            # aborts, overflows the stack ...), is not run to the end either
+            dead_starts = dead_starts + 1 if n == 0 else 0
+            if dead_starts >= 3 and not os.environ.get('BEDV_KEEP_GOING'):
+                HANG_SEEN.append(1)
+                for i in todo:
+                    results[i] = '(abort %s)' % st
+                return
             if st == 'timeout':
                 hangs += 1
                 if FAST_ABORT or hangs >= 3:
